@@ -123,7 +123,8 @@ impl Curve {
     pub fn extrapolate(&mut self, n: usize) {
         // We need at least three samples to extrapolate, so let's do nothing if we have fewer.
         if self.wcet_of_n_jobs.len() >= 3 {
-            while self.wcet_of_n_jobs.len() < n - 1 {
+            // (phrased as an addition so that n = 0 does not underflow)
+            while self.wcet_of_n_jobs.len() + 1 < n {
                 self.wcet_of_n_jobs.push(self.extrapolate_next())
             }
         }
